@@ -7,6 +7,10 @@
 #include <eav.h>
 #include <eav/auto_tld.h>
 #include "vf.h"
+#include "idnkit_res.h"
+#ifdef HAVE_LIBIDN
+#include <idna.h>
+#endif
 
 #ifndef CB_ADDRS
 #define CB_ADDRS 2
@@ -73,9 +77,13 @@ eav_result_t *is_822_email(const char *e, size_t l, bool t)  { return cb_invoke(
 eav_result_t *is_5321_email(const char *e, size_t l, bool t) { return cb_invoke(EAV_RFC_5321, e, l, t); }
 eav_result_t *is_5322_email(const char *e, size_t l, bool t) { return cb_invoke(EAV_RFC_5322, e, l, t); }
 #ifdef HAVE_IDNKIT
-static int cb_ctx_seen;
+static bool cb_bad_ctx;
 eav_result_t *is_6531_email(idn_resconf_t ctx, idn_action_t a, const char *e, size_t l, bool t)
-{ cb_ctx_seen = (int) (long) ctx; (void) a; return cb_invoke(EAV_RFC_6531, e, l, t); }
+{
+    /* C18: the validation must be given a live context (reading a destroyed one is a freed-object dereference) */
+    if (ctx == NULL || ctx->live != 1 || a != IDN_ENCODE_REGIST) cb_bad_ctx = true;
+    return cb_invoke(EAV_RFC_6531, e, l, t);
+}
 #else
 eav_result_t *is_6531_email(const char *e, size_t l, bool t) { return cb_invoke(EAV_RFC_6531, e, l, t); }
 #endif
@@ -87,7 +95,9 @@ static long cb_strerror_arg;
 #if defined(HAVE_LIBIDN2)
 const char *idn2_strerror(int rc) { cb_strerror_calls++; cb_strerror_arg = rc; return cb_idn_message; }
 #elif defined(HAVE_LIBIDN)
-const char *idna_strerror(Idna_rc rc) { cb_strerror_calls++; cb_strerror_arg = rc; return cb_idn_message; }
+const char *idna_strerror(Idna_rc rc) { cb_strerror_calls++; cb_strerror_arg = (int) rc; return cb_idn_message; }
+#elif defined(HAVE_IDNKIT)
+const char *idn_result_tostring(idn_result_t rc) { cb_strerror_calls++; cb_strerror_arg = rc; return cb_idn_message; }
 #endif
 
 /* canonical message of an error code, taken from the real eav_errstr */
